@@ -325,6 +325,9 @@ func (r *Run) writeEvidence(viol int, known map[string]int64) error {
 		return err
 	}
 	dir := filepath.Join(Root, "evidence")
+	if d := os.Getenv("VERIF_EVIDENCE_DIR"); d != "" {
+		dir = d // runs against a deliberately changed tree (tools/seedcheck.sh) keep their evidence apart
+	}
 	if err := os.MkdirAll(dir, 0o755); err != nil {
 		return err
 	}
